@@ -184,6 +184,29 @@ fn adapters<B: crate::backend::Backend, P: crate::prims::Prims>(opts: &Opts, rep
             }
         }
     }
+    // one very long fragment on each axis (above any 16-bit or 64 KiB internal limit)
+    for (ml, fl, al) in [(70_001usize, 3usize, 0usize), (5, 70_001, 0), (5, 3, 70_001), (66_000, 66_000, if B::HAS_AAD { 66_000 } else { 0 })] {
+        idx += 1;
+        if !opts.mine_sys(idx) || (!B::HAS_AAD && al != 0) || (B::VER == 1 && ml + fl + al > 80_000) {
+            continue;
+        }
+        let mut rng = Rng::derive(opts.seed, &stream, idx);
+        let (msg, footer, aad) = (rng.bytes(ml), rng.bytes(fl), rng.bytes(al));
+        let key: [u8; 32] = rng.arr();
+        let nonce = rng.bytes(B::LOCAL_NONCE);
+        let kl = KeyPair::<B>::Local(local_key::<B>(&key));
+        let want = join_token(&kl.header(), &r::local_seal::<P>(B::VER, &key, &nonce, &msg, &footer, &aad), &footer);
+        rep.case(&format!("{}.adapter-through-tag.long-fragment", B::NAME), fnv_parts(&[B::NAME.as_bytes(), &msg[..msg.len().min(16)], &(ml as u64).to_le_bytes(), &(fl as u64).to_le_bytes(), &(al as u64).to_le_bytes()]), true);
+        if !matches!(guard(|| kl.seal_with_nonce(&nonce, &msg, &footer, &aad)), Ok(Ok(t)) if t == want) {
+            rep.violation(&format!("C15|{}|local|mac-adapter-saw-different-bytes", B::NAME), json!({"backend": B::NAME, "message_len": ml, "footer_len": fl, "assertion_len": al}));
+        }
+        if let Ok(Ok(t)) = guard(|| kp.seal(&msg, &footer, &aad)) {
+            let (_, body, f) = split_token(&t);
+            if r::public_verify::<P>(B::VER, &pk_raw, &body, &f, &aad).as_deref() != Some(&msg[..]) {
+                rep.violation(&format!("C15|{}|public|digest-adapter-saw-different-bytes", B::NAME), json!({"backend": B::NAME, "message_len": ml, "footer_len": fl, "assertion_len": al}));
+            }
+        }
+    }
 }
 
 pub fn run(opts: &Opts) {
